@@ -13,8 +13,10 @@ def run(c, a):
               "composite glyphs whose components are simple glyphs placed by x/y offsets without scaling are decoded too (Components, translation, USE_MY_METRICS shift) and compared contour by contour; "
               "character-to-glyph mapping: the raw cmap table of every face (quick: 400 corpus files, thorough: all) is decoded by CmapBytes.tla (encoding records, choice of the Unicode subtable, formats 4/6/10/12/13) "
               "and compared with NominalGlyph over all 0x110000 code points; "
+              "normalized coordinates: for every variable corpus face, design coordinate vectors (min, default, max, outside the range, mid-points, seeded random multiples of 1/64) are normalized by Avar.tla "
+              "(fvar clamp and scaling, avar segment maps) and compared with Font.NormalizeVariations (one unit of 2.14 of rounding slack per stage); "
               "non-trivial = judged glyph with >= 1 contour / face whose mapping has >= 2 run-length segments; distinct = distinct (font, glyph) / faces")
-    c.assumptions = ["PARTIAL: TrueType simple glyphs and translation-only composites of simple glyphs at default coordinates; CFF/CFF2 charstrings, scaled / point-anchored / nested composites, variation instances, symbol / Macintosh-encoded cmaps and cmap formats 0/2/14 are not covered (no reference decoder is available offline; DESIGN §6)",
+    c.assumptions = ["PARTIAL: TrueType simple glyphs and translation-only composites of simple glyphs at default coordinates; CFF/CFF2 charstrings, scaled / point-anchored / nested composites, variation deltas (gvar / HVAR / MVAR), axes whose fvar values are not multiples of 1/64, symbol / Macintosh-encoded cmaps and cmap formats 0/2/14 are not covered (no reference decoder is available offline; DESIGN §6)",
                      "raw table bytes are read through opentype.Loader.RawTable (C19/C09 cover it) and sliced with loca by the harness",
                      "the x bearing may be xMin or the hmtx left side bearing (rasterizer convention followed by the reference shaper)"]
     prefix = os.path.join(c.scratch, "gl")
@@ -82,6 +84,46 @@ def run(c, a):
             from .common import Undecided
             raise Undecided("CmapBytesV sensitivity test: corrupted events %s expected to be rejected, got %s" % (want, bad))
         c.extra["cmap_sensitivity"] = "corrupted glyph / widened range rejected (lines %s), original accepted" % bad
+    # ---- normalized coordinates of variable fonts: fvar / avar decoded by Avar.tla vs Font.NormalizeVariations
+    prefix = os.path.join(c.scratch, "av")
+    out = json.loads(c.vh(["avar", "corpus", 40 if thorough else 8, prefix, NCPU], timeout=7200).stdout)
+    c.extra["avar_generated"] = out
+    atraces = [t for t in ["%s.%02d.ndjson" % (prefix, i) for i in range(NCPU)] if os.path.exists(t) and os.path.getsize(t) > 0]
+    ast = {}
+    asrc = None
+    for tp, rj, r in c.validate("AvarV", atraces, timeout=7200, heap="2g"):
+        for k, v in rj["stats"].items():
+            ast[k] = ast.get(k, 0) + v
+        c.evaluations += rj["stats"]["axes"]
+        c.traces += rj["stats"]["n"]
+        c.nontrivial += rj["stats"]["nontriv"]
+        lines = open(tp).read().split("\n")
+        for f in rj["fails"]:
+            ev = json.loads(lines[f["line"] - 1])
+            c.fail("pred=Normalized font=%s" % ev["font"], "axis=%s v(1/64)=%s got=%s p=%s" % (f["axis"], ev["v"], ev["got"], ev["p"]), {"engine": "avar", "font": ev["font"], "v": ev["v"]})
+        if asrc is None and not rj["fails"]:
+            for l in lines:
+                if l:
+                    ev = json.loads(l)
+                    if ev["got"] and ev["got"][0] not in (0, 16384, -16384) and len(ev["avar"]) > 8:
+                        asrc = ev
+                        break
+    c.extra["avar_stats"] = ast
+    if asrc is None:
+        from .common import Undecided
+        raise Undecided("no judged avar event to derive the sensitivity test from")
+    m1 = json.loads(json.dumps(asrc))
+    m1["got"][0] += 3
+    m2 = json.loads(json.dumps(asrc))
+    m2["got"][0] = -m2["got"][0]
+    mt = os.path.join(c.scratch, "av_mutant.ndjson")
+    open(mt, "w").write(json.dumps(m1) + "\n" + json.dumps(m2) + "\n" + json.dumps(asrc) + "\n")
+    for tp, rj, r in c.validate("AvarV", [mt], timeout=600, heap="2g"):
+        bad = sorted(set(f["line"] for f in rj["fails"]))
+        if bad != [1, 2]:
+            from .common import Undecided
+            raise Undecided("AvarV sensitivity test: corrupted events [1, 2] expected to be rejected, got %s" % bad)
+        c.extra["avar_sensitivity"] = "shifted / negated normalized coordinate rejected, original accepted"
     c.exhaustive = False
     for l in open(traces[0]).read().split("\n")[:60]:
         if l and '"segs":[[' in l and len(c.samples) < 2:
